@@ -35,7 +35,7 @@ ID = "C07"
 LEAN_TARGETS = ["RV.C07.Props", "RV.C07.Audit"]
 AUDIT = "RV/C07/Audit.lean"
 DRIVER = "drv_c07"
-CASES = {"quick": 1500, "thorough": 30000, "search": 20000}
+CASES = {"quick": 1200, "thorough": 30000, "search": 20000}
 RULE = ("3-7 terms per case drawn from every kind (URIRef, Genid, RDFLibGenid, BNode, Variable, Literal over every "
         "datatype of XSDToPython with valid / invalid / non-normalised lexical forms, language tags differing in case, "
         "NaN/INF, naive and aware date-times, arbitrary Unicode incl. quotes, backslashes, CR/LF/TAB, controls, non-BMP), "
@@ -168,8 +168,36 @@ def _gen_retyped(rng):
     return {"k": "lit", "lex": lex, "dt": dt, "lang": lang, "nn": False, "re": True}
 
 
-def _gen_term(rng):
+PY_VALUES = [["int", "0"], ["int", "5"], ["int", "-7"], ["bool", "True"], ["bool", "False"], ["float", "1.5"], ["float", "0.0"],
+             ["float", "inf"], ["float", "nan"], ["decimal", "1.10"], ["decimal", "0"], ["str", ""], ["str", "a\nb\""],
+             ["datetime", "2001-10-26T21:32:52+02:00"], ["datetime", "2001-10-26T21:32:52"], ["date", "2001-10-26"],
+             ["time", "21:32:52"], ["bytes", "ab"], ["bytes", "\u00e9"]]
+
+
+def _gen_route(rng):
+    """terms built through the other parameters / operand classes of the constructors (surface audit):
+    Literal from a Python value, from bytes, from a str subclass, datatype given as a URIRef object or a Literal;
+    URIRef(value, base=…); BNode(_sn_gen=…, _prefix=…)"""
     r = rng.random()
+    if r < 0.35:
+        t = {"k": "lit", "lex": "", "dt": None, "lang": None, "nn": False, "py": rng.choice(PY_VALUES)}
+        if rng.random() < 0.2:
+            t["dt"] = rng.choice([XSD + "integer", XSD + "string", XSD + "double", "http://e/dt"])
+        return t
+    if r < 0.6:
+        t = _gen_lit(rng)
+        t["via"] = rng.choice(["bytes", "strsub", "dtobj", "dtlit", "normtrue", "langempty"])
+        return t
+    if r < 0.8:
+        return {"k": "iri", "s": rng.choice(["a", "../b", "#f", "c?d=1", "", "http://e/abs", "x/y#"]),
+                "base": rng.choice(["http://e/dir/doc", "http://e/", "http://e/a#frag", "urn:x:y"])}
+    return {"k": "bnode", "s": "", "gen": rng.choice(["42", "0", "abc"]), "prefix": rng.choice(["N", "b", ""])}
+
+
+def _gen_term(rng, p_route=0.0):
+    r = rng.random()
+    if rng.random() < p_route:
+        return _gen_route(rng)
     if r > 0.93:
         return _gen_retyped(rng)
     if r < 0.16:
@@ -225,19 +253,87 @@ def _variant(rng, t):
     return t
 
 
+ENVS = ["nonorm", "dawg", "bind"]
+
+
 def gen_case(rng, tier, i):
+    thorough = tier != "quick"
+    p_route = 0.10 if thorough else 0.05
     n = rng.choice([3, 3, 4, 5, 6, 7])
-    terms = [_gen_term(rng)]
+    terms = [_gen_term(rng, p_route)]
     while len(terms) < n:
         if rng.random() < 0.55:
             terms.append(_variant(rng, rng.choice(terms)))
         else:
-            terms.append(_gen_term(rng))
+            terms.append(_gen_term(rng, p_route))
     rng.shuffle(terms)
     p1 = list(range(n)); rng.shuffle(p1)
     p2 = list(range(n)); rng.shuffle(p2)
-    return {"terms": terms, "p1": p1, "p2": p2, "nsm": rng.choice(["custom", "rebind", "only"]),
-            "delims": [[rng.randrange(len(DELIMS)), rng.random() < 0.35] for _ in range(3)]}
+    case = {"terms": terms, "p1": p1, "p2": p2, "nsm": rng.choice(["custom", "rebind", "only"]),
+            "delims": [[rng.randrange(len(DELIMS)), rng.random() < 0.35] for _ in range(3 if thorough else 2)],
+            "par": 7 if thorough else 2}
+    # process-level state (surface audit): the module flags and a datatype registered with term.bind()
+    if rng.random() < (0.30 if thorough else 0.12):
+        case["env"] = rng.choice(ENVS)
+        if case["env"] == "bind":
+            for t in terms:
+                if t["k"] == "lit" and t.get("dt") and not t.get("py") and rng.random() < 0.6:
+                    t["dt"], t["lex"] = BOUND_DT, rng.choice(["0A", "a", "ff", "zz", "", "0a"])
+    return case
+
+
+BOUND_DT = "http://e/dt#code"
+
+
+class Hex:
+    """value type registered for BOUND_DT by the `bind` environment (hexadecimal numbers, normal form lower-case)"""
+
+    def __init__(self, s):
+        self.v = int(s, 16)
+
+    def __eq__(self, o):
+        return isinstance(o, Hex) and self.v == o.v
+
+    def __hash__(self):
+        return hash(self.v)
+
+    def __gt__(self, o):
+        return self.v > o.v
+
+    def __lt__(self, o):
+        return self.v < o.v
+
+
+class _Env:
+    """process-level state a case runs under; always restored"""
+
+    def __init__(self, case):
+        self.kind = case.get("env")
+
+    def __enter__(self):
+        self.old = (rdflib.NORMALIZE_LITERALS, rdflib.DAWG_LITERAL_COLLATION)
+        if self.kind == "nonorm":
+            rdflib.NORMALIZE_LITERALS = False
+        elif self.kind == "dawg":
+            rdflib.DAWG_LITERAL_COLLATION = True
+        elif self.kind == "bind":
+            T.bind(URIRef(BOUND_DT), Hex, constructor=Hex, lexicalizer=lambda h: format(h.v, "x"), datatype_specific=True)
+        return self
+
+    def __exit__(self, *a):
+        rdflib.NORMALIZE_LITERALS, rdflib.DAWG_LITERAL_COLLATION = self.old
+        if self.kind == "bind":
+            T._reset_bindings()
+        return False
+
+
+def _with_env(f):
+    def g(case, *a):
+        with _Env(case):
+            return f(case, *a)
+    g.__name__ = f.__name__
+    g.__doc__ = f.__doc__
+    return g
 
 
 # ------------------------------------------------------------------ namespace managers, node picklers
@@ -249,7 +345,23 @@ DELIMS = [(" .", "<urn:s> <urn:p> {T} ."), (";", "<urn:s> <urn:p> {T}; <urn:q> <
           (".", "<urn:s> <urn:p> {T}."), ("\n", "<urn:s> <urn:p> {T}\n ."), (" ;", "<urn:s> <urn:p> {T} ; <urn:q> {T} .")]
 
 
+_NSM_CACHE = {}
+
+
 def _make_nsm(kind):
+    """one manager per configuration and process, re-used across calls and cases (as applications do)"""
+    if kind not in _NSM_CACHE:
+        _NSM_CACHE[kind] = _make_nsm_new(kind)
+    return _NSM_CACHE[kind]
+
+
+def _default_nsm():
+    if "default" not in _NSM_CACHE:
+        _NSM_CACHE["default"] = Graph().namespace_manager
+    return _NSM_CACHE["default"]
+
+
+def _make_nsm_new(kind):
     """custom: the default manager plus own prefixes; rebind: default prefixes (schema, owl, xsd) re-bound to other
     namespaces; only: nothing bound but what is bound here (prefixes known only to the manager handed to from_n3)"""
     from rdflib.namespace import NamespaceManager
@@ -321,8 +433,55 @@ def _picklers():
 # ------------------------------------------------------------------ building and describing terms
 
 
+def _py_value(typ, text):
+    import datetime
+    import decimal
+    if typ == "int":
+        return int(text)
+    if typ == "bool":
+        return text == "True"
+    if typ == "float":
+        return float(text)
+    if typ == "decimal":
+        return decimal.Decimal(text)
+    if typ == "datetime":
+        return datetime.datetime.fromisoformat(text)
+    if typ == "date":
+        return datetime.date.fromisoformat(text)
+    if typ == "time":
+        return datetime.time.fromisoformat(text)
+    if typ == "bytes":
+        return text.encode("utf-8")
+    return text
+
+
+class StrSub(str):
+    """a plain str subclass used as the lexical argument"""
+
+
 def build(t):
     k = t["k"]
+    if k == "lit" and t.get("py"):
+        return Literal(_py_value(*t["py"]), datatype=t.get("dt"))
+    if k == "lit" and t.get("via"):
+        via, lex, dt, lang = t["via"], t["lex"], t.get("dt"), t.get("lang")
+        nz = False if t.get("nn") else None
+        if via == "bytes":
+            return Literal(lex.encode("utf-8"), lang=lang, datatype=dt, normalize=nz)
+        if via == "strsub":
+            return Literal(StrSub(lex), lang=lang, datatype=dt, normalize=nz)
+        if via == "dtobj":
+            return Literal(lex, lang=lang, datatype=None if dt is None else URIRef(dt), normalize=nz)
+        if via == "dtlit":
+            return Literal(lex, lang=lang, datatype=None if dt is None else Literal(dt), normalize=nz)
+        if via == "normtrue":
+            return Literal(lex, lang=lang, datatype=dt, normalize=True)
+        if via == "langempty":
+            return Literal(lex, lang=lang if lang else "", datatype=dt, normalize=nz)
+    if k == "iri" and t.get("base"):
+        return URIRef(t["s"], base=t["base"])
+    if k == "bnode" and t.get("gen") is not None:
+        return BNode(_sn_gen=lambda: t["gen"], _prefix=t.get("prefix", "N"))
     if k == "lit" and t.get("re") == "lang":   # a datatyped literal re-made into a language-tagged one
         return Literal(Literal(t["lex"], datatype=t.get("dt"), normalize=False), lang=t.get("lang"))
     if k == "lit" and t.get("re"):             # a plain / language-tagged literal re-typed
@@ -381,6 +540,8 @@ def _covered(a, b):
     """the model's </> covers the pair: not two literals whose comparison can reach a typed (non-str) value"""
     if not (isinstance(a, Literal) and isinstance(b, Literal)):
         return True
+    if rdflib.DAWG_LITERAL_COLLATION:
+        return False     # that mode makes literals of different datatypes incomparable on purpose
     for x in (a, b):
         if x.value is not None and not (x.datatype is None or str(x.datatype) == XSD + "string"):
             return False
@@ -424,8 +585,21 @@ def _fixpoint(t):
     return str(r) == str(t)
 
 
+_SCRATCH = {}
+
+
+def _scratch_graph():
+    """an empty graph re-used for prefix-free parses and for evaluating queries"""
+    g = _SCRATCH.get("g")
+    if g is None:
+        g = _SCRATCH["g"] = Graph()
+    else:
+        g.remove((None, None, None))
+    return g
+
+
 def _turtle(text):
-    g = Graph()
+    g = _scratch_graph()
     g.parse(data="<urn:s> <urn:p> %s ." % text, format="turtle")
     ts = list(g)
     return ts[0][2] if len(ts) == 1 else None
@@ -435,10 +609,11 @@ def _sparql(text):
     from rdflib.plugins.sparql.parser import parseQuery
     from rdflib.plugins.sparql.algebra import translateQuery
     q = translateQuery(parseQuery("SELECT ?x WHERE { VALUES ?x { %s } }" % text))
-    rows = list(Graph().query(q))
+    rows = list(_scratch_graph().query(q))
     return rows[0][0] if len(rows) == 1 else None
 
 
+@_with_env
 def run_impl(case):
     terms_j = case["terms"]
     stats = {"terms": len(terms_j)}
@@ -457,6 +632,13 @@ def run_impl(case):
     live = [(i, t) for i, t in enumerate(ts) if t is not None]
     kinds = {i: BASEKIND[terms_j[i]["k"]] for i, _ in live}
     nontrivial = False
+    dawg = bool(rdflib.DAWG_LITERAL_COLLATION)
+    stats["axis_env_" + str(case.get("env") or "default")] = 1
+    for tj in terms_j:
+        for f in ("py", "via", "base", "gen", "re"):
+            if tj.get(f):
+                key = "axis_ctor_" + f + ("_" + str(tj[f][0] if f == "py" else tj[f]) if f in ("py", "via", "re") else "")
+                stats[key] = stats.get(key, 0) + 1
 
     involved = []
 
@@ -504,6 +686,8 @@ def run_impl(case):
                 V("set-collapse", f"{a!r}, {b!r}: == is {e} but set/dict disagree")
             # ordering (<= and >= of two literals are not part of the statement: not evaluated)
             both_lit = ka == kb == "lit"
+            if both_lit and dawg:
+                continue    # DAWG_LITERAL_COLLATION: literals of different datatypes are incomparable on purpose
             lt, gt = _try(lambda: a < b), _try(lambda: a > b)
             le, ge = (None, None) if both_lit else (_try(lambda: a <= b), _try(lambda: a >= b))
             exc = [x for x in (lt, gt, le, ge) if isinstance(x, Exception)]
@@ -525,6 +709,25 @@ def run_impl(case):
                 V("order-asym", f"{a!r} < {b!r} and {b!r} < {a!r}", i, j)
             if lt is True and gt is True:
                 V("order-asym", f"{a!r} is both < and > {b!r}", i, j)
+
+    # ---------------- equality and hashing with instances of user-defined subclasses (not ordering: `_ORDERING`
+    #                  deliberately has no rank for unknown subclasses)
+    for i, a in live:
+        for w in _twins(a):
+            stats["axis_twin_eq_pairs"] = stats.get("axis_twin_eq_pairs", 0) + 1
+            w2 = _twins(a)[0]
+            e1, e2 = _try(lambda: a == w), _try(lambda: w == a)
+            if isinstance(e1, Exception) or isinstance(e2, Exception):
+                V("eq-exc", f"{a!r} == {w!r} raised", i)
+                continue
+            if e1 != e2:
+                V("eq-sym", f"{a!r} == {w!r} is {e1} but the converse is {e2}", i)
+            if (a != w) == e1 or not (w == w2) or (w != w2):
+                V("ne", f"{w!r}: != is not the negation of == / not equal to a second construction", i)
+            if hash(w) != hash(w2) or (e1 and hash(a) != hash(w)):
+                V("hash", f"{a!r} / {w!r}: equal but the hashes differ", i)
+            if len({a, w}) != (1 if e1 else 2) or len({w, w2}) != 1:
+                V("set-collapse", f"{a!r}, {w!r}: == is {e1} but a set disagrees", i)
 
     # ---------------- triples: transitivity of ==
     for i, a in live:
@@ -551,6 +754,10 @@ def run_impl(case):
     if live:
         l1 = [ts[i] for i in case["p1"] if ts[i] is not None]
         l2 = [ts[i] for i in case["p2"] if ts[i] is not None]
+        if dawg:   # keep one literal: the kinds still have to sort, literals among themselves need not
+            keep = next((x for x in l1 if isinstance(x, Literal)), None)
+            l1 = [x for x in l1 if not isinstance(x, Literal) or x is keep]
+            l2 = [x for x in l2 if not isinstance(x, Literal) or x is keep]
         s1, s2 = _try(lambda: sorted(l1)), _try(lambda: sorted(l2))
         if isinstance(s1, Exception) or isinstance(s2, Exception):
             ex = s1 if isinstance(s1, Exception) else s2
@@ -583,15 +790,17 @@ def run_impl(case):
 
     # ---------------- per term: pickling, copying, n3 text
     picklers = _picklers()
+    default_nsm = _default_nsm()
+    parsed = 0
     nsm = _try(lambda: _make_nsm(case.get("nsm", "custom")))
     for i, t0 in live:
         # the term itself and, for the four base classes, a twin in a user-defined subclass
         for t in [t0] + _twins(t0):
             if t is not t0:
                 stats["subclass_twins"] = stats.get("subclass_twins", 0) + 1
-            for name, f in (("pickle2", lambda: pickle.loads(pickle.dumps(t, 2))),
-                            ("pickle", lambda: pickle.loads(pickle.dumps(t, pickle.HIGHEST_PROTOCOL))),
-                            ("copy", lambda: copy.copy(t)), ("deepcopy", lambda: copy.deepcopy(t))):
+            routes = [("pickle%d" % pr, (lambda pr=pr: pickle.loads(pickle.dumps(t, pr)))) for pr in range(pickle.HIGHEST_PROTOCOL + 1)]
+            stats["axis_pickle_protocols"] = stats.get("axis_pickle_protocols", 0) + len(routes)
+            for name, f in routes + [("copy", lambda: copy.copy(t)), ("deepcopy", lambda: copy.deepcopy(t))]:
                 p = _try(f)
                 tag = "copy" if name in ("copy", "deepcopy") else "pickle"
                 if isinstance(p, Exception):
@@ -659,7 +868,7 @@ def run_impl(case):
 
         check("from_n3", _try(lambda: from_n3(text)))
         # the same through a namespace manager on both sides (prefixed names for IRIs and datatypes)
-        if k in ("iri", "lit") and not isinstance(nsm, Exception):
+        if not isinstance(nsm, Exception):
             qtext = _try(lambda: t.n3(nsm))
             if isinstance(qtext, Exception):
                 V("n3-nsm", f"{t!r}.n3(namespace_manager) raised {type(qtext).__name__}: {str(qtext)[:60]}", i)
@@ -669,6 +878,15 @@ def run_impl(case):
                     nontrivial = True
                 save_text, text = text, qtext
                 check("nsm", _try(lambda: from_n3(qtext, nsm=nsm)))
+                stats["axis_n3_nsm_" + k] = stats.get("axis_n3_nsm_" + k, 0) + 1
+                text = save_text
+        # prefixes every manager knows (rdflib's defaults): from_n3 without a manager makes a default one
+        if k in ("iri", "lit"):
+            dtext = _try(lambda: t.n3(default_nsm))
+            if not isinstance(dtext, Exception) and dtext != text:
+                stats["axis_from_n3_default_nsm"] = stats.get("axis_from_n3_default_nsm", 0) + 1
+                save_text, text = text, dtext
+                check("nsm", _try(lambda: from_n3(dtext)))
                 text = save_text
         raw = _raw_from_n3(text)
         if k == "lit" and not isinstance(raw, Exception) and not _same(raw, t, exact_lang=False) and not _infnan(t):
@@ -676,7 +894,9 @@ def run_impl(case):
             V("n3-from_n3", f"{t!r}: n3() text {text!r} read by from_n3 with NORMALIZE_LITERALS=False gives {raw!r}", i)
         if k == "lit" or (k == "iri" and _absolute(s) and not any(ord(c) <= 0x20 for c in s)):
             check("turtle", _try(lambda: _turtle(text)))
-            check("sparql", _try(lambda: _sparql(text)))
+            if parsed < case.get("par", 7):    # the SPARQL parser is slow: a per-case budget in the quick tier
+                parsed += 1
+                check("sparql", _try(lambda: _sparql(text)))
         elif k == "bnode" and _label_ok(s):
             check("turtle", _try(lambda: _turtle(text)), relabel=True)
 
@@ -733,8 +953,9 @@ def _steps(case, ts):
         st += [("n3", i), ("rd", i), ("rt", i)]
         if isinstance(ts[i], (URIRef, Literal)):
             st.append(("rdq", i))
-    for n, i in enumerate([i for i in live if not isinstance(ts[i], Variable)][:3]):
-        d, q = (case.get("delims") or [[0, False]] * 3)[n]
+    dl = case.get("delims") or [[0, False]] * 3
+    for n, i in enumerate([i for i in live if not isinstance(ts[i], Variable)][:len(dl)]):
+        d, q = dl[n]
         st.append(("rdt", i, d, bool(q)))
     for i, tj in enumerate(case["terms"]):
         if tj["k"] == "lit" and _scalar(tj["lex"]) and _scalar(tj.get("dt") or "") and _scalar(tj.get("lang") or ""):
@@ -819,7 +1040,7 @@ def _rdt_impl(case, t, d, q):
     rdflib.NORMALIZE_LITERALS = False
     try:
         def turtle():
-            g = Graph()
+            g = Graph() if pre_t else _scratch_graph()
             g.parse(data=pre_t + stmt, format="turtle")
             return _obj_of(list(g))
 
@@ -845,8 +1066,10 @@ def _exc_name(e):
 def _mk_modelled(tj):
     """the model constructs without lexical normalisation (a parameter): comparable when rdflib does not normalise"""
     dt = tj.get("dt")
-    if tj.get("re"):
-        return False    # Literal(Literal(...), datatype=...) is another constructor path
+    if tj.get("re") or tj.get("py") or tj.get("via"):
+        return False    # other constructor paths
+    if rdflib.NORMALIZE_LITERALS is False:
+        return True     # the `nonorm` environment: rdflib does not normalise either
     return bool(tj.get("nn")) or dt is None or URIRef(dt) not in T._toPythonMapping
 
 
@@ -912,6 +1135,7 @@ def _impl_obs(st, case, ts):
     raise AssertionError(kind)
 
 
+@_with_env
 def model_lines(case):
     ts = _build_all(case)
     lines = []
@@ -960,6 +1184,7 @@ def _uncps(w):
     return "" if w == "e" else "".join(chr(int(x)) for x in w.split(","))
 
 
+@_with_env
 def select_model_obs(case, out):
     """driver output → observation lines.  The model's n3 text is read by rdflib (normalisation off):
     the obligation is that rdflib reads the model's text as the term, not that the texts are equal."""
@@ -1039,6 +1264,8 @@ def shrink(case):
         if t["k"] == "lit" and t.get("nn"):
             t2 = dict(t); t2["nn"] = False
             yield {**case, "terms": ts[:i] + [t2] + ts[i + 1:]}
+    if case.get("env"):
+        yield {k: v for k, v in case.items() if k != "env"}
     if case["p1"] != sorted(case["p1"]):
         yield {**case, "p1": sorted(case["p1"])}
     if case["p2"] != sorted(case["p2"], reverse=True) and case["p2"] != sorted(case["p2"]):
@@ -1065,6 +1292,7 @@ def _lt_cycle(lits):
     return False
 
 
+@_with_env
 def _explain(case, result):
     """for every violation the id of the listed finding that accounts for it, or None"""
     ts = _build_all(case)
@@ -1078,8 +1306,9 @@ def _explain(case, result):
             out.append("K1")   # the oracle itself checked that what came back is the normalised literal
         elif tag == "n3-sparql" and inv and all(isinstance(t, Literal) and _U_ESC.search(str(t)) for t in inv):
             out.append("K2")
-        elif tag == "n3-sparql" and inv and all(isinstance(t, Literal) and _infnan(t) for t in inv) and "raised" not in v:
-            out.append("K5")
+        elif (tag == "n3-sparql" or (tag in ("n3-from_n3", "n3-turtle", "n3-nsm") and case.get("env") == "nonorm")) \
+                and inv and all(isinstance(t, Literal) and _infnan(t) for t in inv) and "raised" not in v:
+            out.append("K5")   # readers that keep lexical forms: the SPARQL parser, or any reader with NORMALIZE_LITERALS off
         elif tag in _ORDER_TAGS and any(_is_nan_lit(t) for t in inv):
             out.append("K3")
         elif tag in _SORT_TAGS and nan_lit:
